@@ -109,6 +109,13 @@ def run(ctx):
         ok = bool(finals) and all(o[1].state in DOWN for o in finals)
         ctx.instance(R1, f"first message {k} drops the connection", ok,
                      f"a first inbound {k} on a just established connection does not leave the connection disconnected", loc(repo.func("AsyncFIXConnection._process_message")))
+        # ... and so does the first message an initiator gets after its own Logon went out, when it is not the Logon reply
+        fin2 = [o for o in outs if o[1].state0 == "LOGON_INITIAL_SENT" and o[1].kind in (k, "?") and o[1].integ in ("ok",) and o[1].ord not in ("ABSENT", "LT")
+                and o[0] == "return"]
+        if fin2 and k != "LOGOUT":  # (a Logout is taken by its own handler, whose exits the disconnect rules decide)
+            ctx.instance(R1, f"first message {k} instead of the Logon reply drops the connection", all(o[1].state in DOWN for o in fin2),
+                         f"an inbound {k} that arrives where the Logon reply is due (state LOGON_INITIAL_SENT) does not leave the connection disconnected",
+                         loc(repo.func("AsyncFIXConnection._process_message")))
 
     # ------------------------------------------------------------------ rule 2
     ito, outs_o = absint.outbound(repo)
